@@ -44,7 +44,10 @@ ASSUMPTIONS = ["node names are strings (CausalInference's set helper rejects any
                "tagged and skipped)",
                "evidence argument of CausalInference.query is not exercised (the property is about P(Y | do(X)))"]
 
-NAMEPOOL = ["A", "B", "C", "D", "E", "X", "Y", "Z", "U", "M", "W", "n0", "n1", "n2", "x y", "0", "1", "a-b", "Q", "T"]
+NAMEPOOL = ["A", "B", "C", "D", "E", "X", "Y", "Z", "U", "M", "W", "n0", "n1", "n2", "x y", "0", "1", "a-b", "Q", "T",
+            "x1", "x10", "x11", "G", "G2", "do", "evidence", "variables", "None", "", "__X", "__A"]
+SUBSTR = ["x", "x1", "x10", "x11", "x110", "G", "G2", "__x", "__x1"]
+BIGINT = [8, 16, 9, 24, 1, 32, 17, 40, 0, 64]     # a set of these does not iterate in increasing order
 
 
 # ------------------------------------------------------------------ case generation
@@ -65,8 +68,8 @@ def cases(tier, seed):
             out.append({"kind": "graph", "n": 5, "edges": edges, "lat": [], "pairs": 4,
                         "nameseed": rng.randint(0, 10**9)})
     # ---- minimal adjustment set under every hash seed
-    for edges in common.all_dags(4):
-        if len(edges) < 3:
+    for k, edges in enumerate(common.all_dags(4)):
+        if len(edges) < 3 or (not thorough and k % 2):
             continue
         for hs in HASHSEEDS[tier]:
             out.append({"kind": "minadj", "n": 4, "edges": edges, "lat": [], "hashseed": hs, "nameseed": 7})
@@ -78,12 +81,10 @@ def cases(tier, seed):
             out.append({"kind": "minadj", "n": n, "edges": edges, "lat": lat, "hashseed": rng.choice(HASHSEEDS[tier]),
                         "nameseed": rng.randint(0, 10**9)})
     # ---- bn stream
-    for n in range(2, 4):
+    for n in range(1, 4):
         for edges in common.all_dags(n):
-            if not edges:
-                continue
-            out.append(bn_case(rng, n, edges, []))
-    nrand = 120 if not thorough else 1500
+            out.append(bn_case(rng, n, edges, []))       # includes the single-node and the edgeless networks
+    nrand = 70 if not thorough else 1500
     for i in range(nrand):
         n = rng.choice([3, 4, 4, 4, 5] if not thorough else [3, 4, 4, 5, 5])
         nodes, edges = common.rand_dag(rng, n, p=rng.choice([0.35, 0.5, 0.7, 0.9]))
@@ -103,9 +104,33 @@ def cases(tier, seed):
         c = bn_case(rng, n, edges, [], deterministic=True)
         c["kind"] = "sim"
         out.append(c)
+    # ---- magnitudes (numpy): CPD entries down to 2^-50, joint masses down to ~1e-60, compared RELATIVELY
+    for i in range(10 if not thorough else 150):
+        n = rng.choice([3, 4, 4])
+        nodes, edges = common.rand_dag(rng, n, p=rng.choice([0.7, 0.9]))
+        out.append(bn_case(rng, n, edges, [], mag=True, card1=False))
+    # ---- torch backend
+    for i in range(8 if not thorough else 120):
+        n = rng.choice([3, 4])
+        nodes, edges = common.rand_dag(rng, n, p=rng.choice([0.5, 0.7, 0.9]))
+        out.append(bn_case(rng, n, edges, [], backend="torch"))
+    # ---- sessions on ONE model object + ONE engine: graph edits through every mutator between the calls
+    for i in range(36 if not thorough else 400):
+        n = rng.choice([3, 4, 4])
+        nodes, edges = common.rand_dag(rng, n, p=rng.choice([0.5, 0.7]))
+        lat = sorted(rng.sample(range(n), 1)) if rng.random() < 0.3 else []
+        out.append({"kind": "gsess", "n": n, "edges": [list(e) for e in edges], "lat": lat,
+                    "nameseed": rng.randint(0, 10**9), "qseed": rng.randint(0, 10**9)})
+    # ---- sessions on ONE network + ONE CausalInference object: CPD / edge edits and do(inplace) between queries
+    for i in range(30 if not thorough else 400):
+        n = rng.choice([3, 4, 4])
+        nodes, edges = common.rand_dag(rng, n, p=rng.choice([0.7, 0.9]))
+        c = bn_case(rng, n, edges, [], card1=False, backend="torch" if i % 10 == 9 else "numpy")
+        c["kind"] = "qsess"
+        out.append(c)
     # ---- sessions: do() results edited in place must never change the network they were derived from
     sess = [bn_case(rng, 4, [(0, 1), (1, 2), (2, 3), (0, 3)], [])]            # Z -> A -> B -> C, Z -> C
-    for i in range(90 if not thorough else 800):
+    for i in range(45 if not thorough else 800):
         n = rng.choice([3, 4, 4, 5])
         nodes, edges = common.rand_dag(rng, n, p=rng.choice([0.5, 0.7, 0.9]))
         lat = sorted(rng.sample(range(n), 1)) if rng.random() < 0.2 else []
@@ -116,9 +141,22 @@ def cases(tier, seed):
     return out
 
 
-def bn_case(rng, n, edges, lat, deterministic=False):
+def tiny_column(rng, card):
+    """an exact-float probability column with entries down to 2^-50 (products over a chain reach 1e-60)"""
+    ks = sorted(rng.randint(20, 50) for _ in range(card - 1))
+    small = [Fraction(1, 2 ** k) for k in ks]
+    col = small + [1 - sum(small)]
+    rng.shuffle(col)
+    return col
+
+
+def bn_case(rng, n, edges, lat, deterministic=False, mag=False, backend="numpy", card1=None):
     edges = [tuple(e) for e in edges]
     cards = [rng.choice([2, 2, 3]) for _ in range(n)]
+    if card1 is None:
+        card1 = (not deterministic) and rng.random() < 0.12
+    if card1:
+        cards[rng.randrange(n)] = 1                       # a variable with a single state
     zeros = rng.random() < 0.15
     cpds = []
     for v in range(n):
@@ -132,13 +170,16 @@ def bn_case(rng, n, edges, lat, deterministic=False):
             if deterministic:
                 k = rng.randrange(cards[v])
                 cols.append([Fraction(1 if i == k else 0) for i in range(cards[v])])
+            elif mag and cards[v] > 1 and rng.random() < 0.7:
+                cols.append(tiny_column(rng, cards[v]))
             else:
                 cols.append(common.rand_column(rng, cards[v], zeros=zeros))
         # table[i][j] = P(v = i | column j)
         table = [[[c[i].numerator, c[i].denominator] for c in cols] for i in range(cards[v])]
         cpds.append({"v": v, "ps": ps, "table": table})
     return {"kind": "bn", "n": n, "edges": [list(e) for e in edges], "lat": list(lat), "cards": cards, "cpds": cpds,
-            "style": "str" if deterministic else rng.choice(["str", "str", "int", "tuple", "mixed"]),
+            "style": "str" if deterministic else rng.choice(["str", "str", "int", "tuple", "mixed", "bigint", "substr"]),
+            "backend": backend, "mag": bool(mag),
             "nameseed": rng.randint(0, 10**9), "qseed": rng.randint(0, 10**9)}
 
 
@@ -152,7 +193,7 @@ def shrink(case):
             c = dict(case)
             c["lat"] = case["lat"][:i] + case["lat"][i + 1:]
             yield c
-    elif case["kind"] in ("bn", "sess"):
+    elif case["kind"] in ("bn", "sess", "qsess"):
         for i in range(len(case["lat"])):
             c = dict(case)
             c["lat"] = case["lat"][:i] + case["lat"][i + 1:]
@@ -161,8 +202,18 @@ def shrink(case):
 
 # ------------------------------------------------------------------ helpers
 def names_for(case):
+    if "names" in case:
+        return list(case["names"])
     rng = random.Random(case["nameseed"])
     style = case.get("style", "str")
+    if style == "substr":
+        pool = list(SUBSTR)
+        rng.shuffle(pool)
+        return pool[:case["n"]]
+    if style == "bigint":
+        pool = list(BIGINT)
+        rng.shuffle(pool)
+        return pool[:case["n"]]
     if style != "str":
         # CausalInference.query / BayesianNetwork.do accept any hashable node name (b0e2b86); the graph tests
         # (set helper) accept strings only, so only the bn stream uses these
@@ -176,11 +227,19 @@ def state_names_for(case, names):
     rng = random.Random(case["nameseed"] + 1)
     sn = {}
     for v, c in enumerate(case["cards"]):
-        style = rng.choice(["int", "str"] if case["kind"] == "sim" else ["int", "str", "revint"])
+        style = rng.choice(["int", "str"] if case["kind"] == "sim" else ["int", "str", "revint", "onebased", "bool", "same"])
+        if style == "bool" and c != 2:
+            style = "onebased"
         if style == "int":
             sn[v] = list(range(c))
         elif style == "str":
             sn[v] = ["s%d" % i for i in range(c)]
+        elif style == "onebased":
+            sn[v] = list(range(1, c + 1))
+        elif style == "bool":
+            sn[v] = [False, True] if rng.random() < 0.5 else [True, False]
+        elif style == "same":
+            sn[v] = ["lo", "mid", "hi"][:c]          # the same names across variables
         else:
             sn[v] = list(range(c))[::-1]
     return sn
@@ -190,24 +249,63 @@ def build_graph(case):
     from pgmpy.models import BayesianNetwork
     names = names_for(case)
     m = BayesianNetwork()
-    for v in range(case["n"]):
+    orng = random.Random(case.get("nameseed", 0) + 3)
+    order = list(range(case["n"]))
+    orng.shuffle(order)                                  # insertion order of nodes and edges is not an input
+    for v in order:
         m.add_node(names[v], latent=(v in case["lat"]))
-    m.add_edges_from([(names[u], names[v]) for u, v in case["edges"]])
+    es = [(names[u], names[v]) for u, v in case["edges"]]
+    orng.shuffle(es)
+    if orng.random() < 0.5:
+        m.add_edges_from(es)
+    else:
+        for e in es:
+            m.add_edge(*e)
     return m, names
 
 
 def build_bn(case):
     from pgmpy.factors.discrete import TabularCPD
+    import numpy as np
     m, names = build_graph(case)
     sn = state_names_for(case, names)
-    for c in case["cpds"]:
+    orng = random.Random(case.get("nameseed", 0) + 4)
+    cl = list(case["cpds"])
+    orng.shuffle(cl)                                     # insertion order of the CPDs is not an input
+    built = []
+    buf = None
+    for c in cl:
         v, ps = c["v"], c["ps"]
         vals = [[float(Fraction(a, b)) for a, b in row] for row in c["table"]]
-        st = {names[v]: sn[v]}
+        st = {names[v]: list(sn[v])}
         for p in ps:
-            st[names[p]] = sn[p]
-        m.add_cpds(TabularCPD(names[v], case["cards"][v], vals, evidence=[names[p] for p in ps] or None,
-                              evidence_card=[case["cards"][p] for p in ps] or None, state_names=st))
+            st[names[p]] = list(sn[p])
+        form = orng.choice(["list", "ndarray", "buffer", "other"])
+        wreck = None
+        if form == "ndarray":
+            vals = np.ascontiguousarray(np.array(vals, dtype="float64"))
+        elif form == "buffer":
+            vals = np.array(vals, dtype="float64")
+            wreck = vals
+        elif form == "other":
+            tmp = TabularCPD(names[v], case["cards"][v], vals, evidence=[names[p] for p in ps] or None,
+                             evidence_card=[case["cards"][p] for p in ps] or None, state_names=st)
+            vals = tmp.get_values()
+            wreck = tmp
+        cpd = TabularCPD(names[v], case["cards"][v], vals, evidence=[names[p] for p in ps] or None,
+                         evidence_card=[case["cards"][p] for p in ps] or None, state_names=st)
+        if wreck is not None and case.get("backend", "numpy") == "numpy":
+            # the caller's buffer / the source CPD is overwritten after construction: the new CPD keeps its values
+            if hasattr(wreck, "values"):
+                wreck.values[...] = 0.5
+            else:
+                wreck[...] = 0.5
+        built.append(cpd)
+    if orng.random() < 0.5:
+        m.add_cpds(*built)
+    else:
+        for cpd in built:
+            m.add_cpds(cpd)
     return m, names, sn
 
 
@@ -284,20 +382,59 @@ class Findings:
 
 
 # ------------------------------------------------------------------ graph stream
+ZFORMS = ["list", "tuple", "set", "frozenset", "single", "default"]
+
+
+def zarg(Zn, k):
+    """the candidate set in one of the accepted container forms (rotating)"""
+    form = ZFORMS[k % len(ZFORMS)]
+    if form == "single" and len(Zn) != 1:
+        form = "list"
+    if form == "default" and Zn:
+        form = "tuple"
+    if form == "list":
+        return form, list(Zn)
+    if form == "tuple":
+        return form, tuple(Zn)
+    if form == "set":
+        return form, set(Zn)
+    if form == "frozenset":
+        return form, frozenset(Zn)
+    if form == "single":
+        return form, Zn[0]
+    return form, None
+
+
 def run_graph(case, drv):
     from pgmpy.inference import CausalInference
     m, names = build_graph(case)
     ci = CausalInference(m)
     n = case["n"]
-    idx = {nm: i for i, nm in enumerate(names)}
     lat = case["lat"]
-    G = gargs(case)
     fnd = Findings()
     tags = ["graph n=%d" % n, "latents=%d" % len(lat), "edges=%d" % len(case["edges"])]
     pairs = [(x, y) for x in range(n) for y in range(n) if x != y]
     if case.get("pairs"):
         pairs = random.Random(case["nameseed"]).sample(pairs, case["pairs"])
+    b, any_backdoor = graph_checks(case, drv, m, ci, names, pairs, fnd, tags)
+    if b:
+        return b
+    kb = fnd.result(key=common.canon_key(["graph", n, sorted(map(tuple, case["edges"])), lat]), tags=tags)
+    if kb:
+        return kb
+    return ok(nontrivial=len(case["edges"]) > 0 and any_backdoor,
+              key=common.canon_key(["graph", n, sorted(map(tuple, case["edges"])), lat]), tags=tags)
+
+
+def graph_checks(case, drv, m, ci, names, pairs, fnd, tags, multi=True):
+    """every coded test / enumeration for the given pairs on the CURRENT graph `case` of the model object m
+    -> (bad | None, some pair has an open back-door path)"""
+    n = case["n"]
+    idx = {nm: i for i, nm in enumerate(names)}
+    lat = case["lat"]
+    G = gargs(case)
     any_backdoor = False
+    zk = case.get("nameseed", 0)
     for x, y in pairs:
         X, Y = names[x], names[y]
         desc = descendants(case, x)
@@ -306,27 +443,33 @@ def run_graph(case, drv):
             t = drv.call("c13_tests", G + [x, y, Z])
             m_bd, m_adj, m_fd, crit_bd, crit_fd, has_dp, nodesc = t
             Zn = [names[z] for z in Z]
-            i_bd = ci.is_valid_backdoor_adjustment_set(X, Y, Zn)
-            i_adj = ci.is_valid_adjustment_set([X], [Y], Zn)
-            i_fd = ci.is_valid_frontdoor_adjustment_set(X, Y, Zn)
+            zk += 1
+            f1, a1 = zarg(Zn, zk)
+            f2, a2 = zarg(Zn, zk + 2)
+            i_bd = ci.is_valid_backdoor_adjustment_set(X, Y) if a1 is None else ci.is_valid_backdoor_adjustment_set(X, Y, a1)
+            Xl, Yl, Zl = [X], [Y], list(Zn)
+            i_adj = ci.is_valid_adjustment_set(Xl, Yl, Zl)
+            i_fd = ci.is_valid_frontdoor_adjustment_set(X, Y) if a2 is None else ci.is_valid_frontdoor_adjustment_set(X, Y, a2)
+            if (Xl, Yl, Zl) != ([X], [Y], list(Zn)) or (a1 is not None and f1 != "single" and sorted(a1, key=repr) != sorted(Zn, key=repr)):
+                return bad("mutated-argument:validity-tests", {"x": x, "y": y, "Z": Z}), any_backdoor
             d = {"x": x, "y": y, "Z": Z}
             if i_bd != bool(m_bd):
-                return bad("impl!=model:is_valid_backdoor_adjustment_set", dict(d, impl=i_bd, model=m_bd))
+                return bad("impl!=model:is_valid_backdoor_adjustment_set", dict(d, impl=i_bd, model=m_bd)), any_backdoor
             if m_adj == [] or i_adj != bool(m_adj[0]):
-                return bad("impl!=model:is_valid_adjustment_set", dict(d, impl=i_adj, model=m_adj))
+                return bad("impl!=model:is_valid_adjustment_set", dict(d, impl=i_adj, model=m_adj)), any_backdoor
             if i_fd != bool(m_fd):
-                return bad("impl!=model:is_valid_frontdoor_adjustment_set", dict(d, impl=i_fd, model=m_fd))
+                return bad("impl!=model:is_valid_frontdoor_adjustment_set", dict(d, impl=i_fd, model=m_fd)), any_backdoor
             if not (set(Z) & desc):
                 if not nodesc:
-                    return bad("model-inconsistent:descendants", d)
+                    return bad("model-inconsistent:descendants", d), any_backdoor
                 if i_bd != bool(crit_bd):
-                    return bad("impl!=spec:backdoor-test-vs-path-criterion", dict(d, impl=i_bd, criterion=crit_bd))
+                    return bad("impl!=spec:backdoor-test-vs-path-criterion", dict(d, impl=i_bd, criterion=crit_bd)), any_backdoor
                 if i_adj != bool(crit_bd):
-                    return bad("impl!=spec:is_valid_adjustment_set-vs-path-criterion", dict(d, impl=i_adj, criterion=crit_bd))
+                    return bad("impl!=spec:is_valid_adjustment_set-vs-path-criterion", dict(d, impl=i_adj, criterion=crit_bd)), any_backdoor
                 if not crit_bd:
                     any_backdoor = True
             if i_fd != bool(crit_fd and has_dp):
-                return bad("impl!=spec:frontdoor-test-vs-path-criterion", dict(d, impl=i_fd, criterion=crit_fd, has_directed_path=has_dp))
+                return bad("impl!=spec:frontdoor-test-vs-path-criterion", dict(d, impl=i_fd, criterion=crit_fd, has_directed_path=has_dp)), any_backdoor
         # enumerations
         order = list(range(n))
         mb, mf = drv.call("c13_enum", G + [lat, x, y, order])
@@ -344,16 +487,16 @@ def run_graph(case, drv):
         else:
             mbc = ("sets", {frozenset(s) for s in mb[0][0]})
         if ib != mbc:
-            return bad("impl!=model:get_all_backdoor_adjustment_sets", {"x": x, "y": y, "impl": str(ib), "model": str(mbc), "lat": lat})
+            return bad("impl!=model:get_all_backdoor_adjustment_sets", {"x": x, "y": y, "impl": str(ib), "model": str(mbc), "lat": lat}), any_backdoor
         tags.append("backdoor-enum=" + ib[0] + ("" if ib[0] != "sets" else (":empty" if not ib[1] else ":nonempty")))
         if ib[0] == "sets":
             sets_ = ib[1] or {frozenset()}   # an empty frozenset result means "the empty set is valid" (as coded)
             for s in sets_:
                 t = drv.call("c13_tests", G + [x, y, sorted(s)])
                 if not t[3]:
-                    return bad("impl!=spec:enumerated-backdoor-set-violates-criterion", {"x": x, "y": y, "set": sorted(s), "lat": lat})
+                    return bad("impl!=spec:enumerated-backdoor-set-violates-criterion", {"x": x, "y": y, "set": sorted(s), "lat": lat}), any_backdoor
                 if set(s) & set(lat):
-                    return bad("impl!=spec:enumerated-backdoor-set-has-latent", {"x": x, "y": y, "set": sorted(s), "lat": lat})
+                    return bad("impl!=spec:enumerated-backdoor-set-has-latent", {"x": x, "y": y, "set": sorted(s), "lat": lat}), any_backdoor
         try:
             r = ci.get_all_frontdoor_adjustment_sets(X, Y)
             if_ = ("sets", {frozenset(idx[u] for u in s) for s in r})
@@ -361,20 +504,20 @@ def run_graph(case, drv):
             if_ = ("assert", None)
         mfc = ("assert", None) if mf == [] else ("sets", {frozenset(s) for s in mf[0]})
         if if_ != mfc:
-            return bad("impl!=model:get_all_frontdoor_adjustment_sets", {"x": x, "y": y, "impl": str(if_), "model": str(mfc), "lat": lat})
+            return bad("impl!=model:get_all_frontdoor_adjustment_sets", {"x": x, "y": y, "impl": str(if_), "model": str(mfc), "lat": lat}), any_backdoor
         if if_[0] == "sets":
             for s in if_[1]:
                 t = drv.call("c13_tests", G + [x, y, sorted(s)])
                 if not t[4]:
-                    return bad("impl!=spec:enumerated-frontdoor-set-violates-criterion", {"x": x, "y": y, "set": sorted(s)})
+                    return bad("impl!=spec:enumerated-frontdoor-set-violates-criterion", {"x": x, "y": y, "set": sorted(s)}), any_backdoor
             if if_[1]:
                 tags.append("frontdoor-enum:nonempty")
         b = check_minadj(case, drv, ci, names, idx, x, y, fnd, tags)
         if b:
-            return b
+            return b, any_backdoor
     # proper back-door graph with several sources / targets
     rng = random.Random(case["nameseed"] + 5)
-    for _ in range(3):
+    for _ in range(3 if multi else 1):
         if n < 3:
             break
         k = rng.randint(1, n - 1)
@@ -386,17 +529,35 @@ def run_graph(case, drv):
         pg = ci.get_proper_backdoor_graph([names[v] for v in Xs], [names[v] for v in Ys])
         ie = sorted((idx[a], idx[b]) for a, b in pg.edges())
         if ie != sorted(map(tuple, pe)) or sorted(idx[v] for v in pg.nodes()) != list(range(n)):
-            return bad("impl!=model:get_proper_backdoor_graph", {"X": Xs, "Y": Ys, "impl": ie, "model": sorted(pe)})
+            return bad("impl!=model:get_proper_backdoor_graph", {"X": Xs, "Y": Ys, "impl": ie, "model": sorted(pe)}), any_backdoor
         if sorted(m.edges()) != sorted((names[u], names[v]) for u, v in case["edges"]):
-            return bad("mutated-argument:get_proper_backdoor_graph", {"X": Xs, "Y": Ys})
+            return bad("mutated-argument:get_proper_backdoor_graph", {"X": Xs, "Y": Ys}), any_backdoor
+        # the returned graph is the caller's: wreck it, ask again
+        pg.remove_edges_from(list(pg.edges()))
+        pg2 = ci.get_proper_backdoor_graph([names[v] for v in Xs], [names[v] for v in Ys])
+        if pg2 is pg or sorted((idx[a], idx[b]) for a, b in pg2.edges()) != ie:
+            return bad("result-independence:get_proper_backdoor_graph", {"X": Xs, "Y": Ys}), any_backdoor
+        if sorted(m.edges()) != sorted((names[u], names[v]) for u, v in case["edges"]):
+            return bad("mutated-argument:get_proper_backdoor_graph", {"X": Xs, "Y": Ys, "after": "editing the result"}), any_backdoor
+        # inplace=True on a copy of the network: the copy becomes the proper back-door graph
+        from pgmpy.inference import CausalInference as _CI
+        mc_ = m.copy()
+        r_ = _CI(mc_).get_proper_backdoor_graph([names[v] for v in Xs], [names[v] for v in Ys], inplace=True)
+        if sorted((idx[a], idx[b]) for a, b in mc_.edges()) != ie or r_ is not mc_:
+            return bad("impl!=model:get_proper_backdoor_graph-inplace", {"X": Xs, "Y": Ys}), any_backdoor
+        # a LATER unknown node is refused and nothing is removed, in place too
+        mc2 = m.copy()
+        try:
+            _CI(mc2).get_proper_backdoor_graph([names[v] for v in Xs], [names[Ys[0]], "__nope__"], inplace=True)
+            return bad("impl!=model:get_proper_backdoor_graph-accepts-unknown-node", {"X": Xs}), any_backdoor
+        except ValueError:
+            pass
+        if sorted(mc2.edges(), key=repr) != sorted(m.edges(), key=repr):
+            return bad("rejected-call-changed-state:get_proper_backdoor_graph", {"X": Xs, "Y": Ys}), any_backdoor
         iv = ci.is_valid_adjustment_set([names[v] for v in Xs], [names[v] for v in Ys], [names[v] for v in Zs])
         if iv != bool(va):
-            return bad("impl!=model:is_valid_adjustment_set-multi", {"X": Xs, "Y": Ys, "Z": Zs, "impl": iv, "model": va})
-    kb = fnd.result(key=common.canon_key(["graph", n, sorted(map(tuple, case["edges"])), lat]), tags=tags)
-    if kb:
-        return kb
-    return ok(nontrivial=len(case["edges"]) > 0 and any_backdoor,
-              key=common.canon_key(["graph", n, sorted(map(tuple, case["edges"])), lat]), tags=tags)
+            return bad("impl!=model:is_valid_adjustment_set-multi", {"X": Xs, "Y": Ys, "Z": Zs, "impl": iv, "model": va}), any_backdoor
+    return None, any_backdoor
 
 
 def check_minadj(case, drv, ci, names, idx, x, y, fnd, tags):
@@ -408,6 +569,11 @@ def check_minadj(case, drv, ci, names, idx, x, y, fnd, tags):
     try:
         r = ci.get_minimal_adjustment_set(names[x], names[y])
         impl = ("none", None) if r is None else ("set", frozenset(idx[u] for u in r))
+        if r is not None:
+            r.add("__w__")                                  # the returned set is the caller's
+            r2 = ci.get_minimal_adjustment_set(names[x], names[y])
+            if r2 is r or r2 is None or frozenset(idx.get(u, -1) for u in r2) != impl[1]:
+                return bad("result-independence:get_minimal_adjustment_set", {"x": x, "y": y, "second": repr(r2)})
     except ValueError:
         impl = ("value", None)
 
@@ -533,33 +699,93 @@ def check_do(case, drv, m, names, sn, idx, Xs, inplace):
     return None
 
 
-def impl_query(ci, names, sn, Y, dov, adj, algo):
-    """-> ('ok', {idx tuple over Y: float}) | ('value', None)"""
+def relclose(a, b, tol=1e-9):
+    """|a-b| <= tol*|b| (purely relative to the model's exact value; exact zeros must be zeros)"""
+    a, b = float(a), float(b)
+    if a != a:
+        return False
+    return abs(a - b) <= tol * abs(b) + 1e-300
+
+
+def tofloat(x):
+    return float(x.item()) if hasattr(x, "item") else float(x)
+
+
+def impl_query(ci, names, sn, Y, dov, adj, algo, probe=0):
+    """-> ('ok', {idx tuple over Y: float}) | ('value', msg) | ('attr', msg) | ('purity'|'independence'|'scope', detail)
+    probe: 0 plain call; 1 also argument purity, reuse of the same argument objects for a second call, mutation
+    of the first result (result independence)"""
+    import copy as _c
     do = {names[v]: sn[v][i] for v, i in dov}
+    variables = [names[v] for v in Y]
     kw = {}
     if adj is not None:
-        kw["adjustment_set"] = {names[z] for z in adj}
+        # documented forms: a set or a list (a frozenset breaks BeliefPropagation.query(variables=frozenset),
+        # which is C02's ground, not exercised here)
+        aset = {names[z] for z in adj}
+        kw["adjustment_set"] = aset if (len(adj) + len(Y) + len(dov)) % 2 == 0 else [names[z] for z in adj]
+    if (len(Y) + len(dov)) % 2:
+        kw["evidence"] = {}
+    snap = (_c.deepcopy(variables), _c.deepcopy(do), _c.deepcopy(kw))
+
+    def call():
+        if not dov and len(Y) % 2:
+            return ci.query(variables, inference_algo=algo, show_progress=False, **kw)       # do=None
+        return ci.query(variables, do=do, inference_algo=algo, show_progress=bool(probe), **kw)
+
+    def table(r):
+        out = {}
+        for tup in itertools.product(*[range(len(sn[v])) for v in Y]):
+            want = {names[v]: sn[v][i] for v, i in zip(Y, tup)}
+            out[tup] = tofloat(r.values[tuple(list(r.state_names[u]).index(want[u]) for u in r.variables)])
+        return out
+
     try:
-        r = ci.query([names[v] for v in Y], do=do, inference_algo=algo, show_progress=False, **kw)
+        r = call()
     except ValueError as e:
+        if (variables, do, kw) != snap:
+            return ("purity", "arguments changed by a refused call")
         return ("value", str(e)[:80])
+    except AttributeError as e:
+        return ("attr", str(e)[:120])
+    if (variables, do, kw) != snap:
+        return ("purity", {"before": repr(snap)[:300], "after": repr((variables, do, kw))[:300]})
     if sorted(map(repr, r.variables)) != sorted(repr(names[v]) for v in Y):
         return ("scope", sorted(map(repr, r.variables)))
-    out = {}
-    for tup in itertools.product(*[range(len(sn[v])) for v in Y]):
-        want = {names[v]: sn[v][i] for v, i in zip(Y, tup)}
-        out[tup] = float(r.values[tuple(r.state_names[u].index(want[u]) for u in r.variables)])
+    out = table(r)
+    if probe:
+        # wreck the first result, call again with the SAME argument objects
+        r.values[...] = 7.0
+        r.variables.append("__w__")
+        r2 = call()
+        if r2 is r:
+            return ("independence", "the same object is returned twice")
+        if sorted(map(repr, r2.variables)) != sorted(repr(names[v]) for v in Y):
+            return ("independence", "scope of the second result: %r" % (r2.variables,))
+        out2 = table(r2)
+        if any(out2[t] != out[t] for t in out):
+            return ("independence", {"first": [out[t] for t in sorted(out)], "second": [out2[t] for t in sorted(out2)]})
     return ("ok", out)
 
 
-def check_query(case, drv, ci, names, sn, Y, dov, adj, algo, fnd, tags, stats):
+def check_query(case, drv, ci, names, sn, Y, dov, adj, algo, fnd, tags, stats, probe=0):
     MB = model_bn(case)
     st, mr = drv.call_e("c13_query", MB + [list(Y), [list(p) for p in dov], [] if adj is None else [list(adj)]])
     d = {"Y": list(Y), "do": [list(p) for p in dov], "adjustment_set": adj, "algo": algo}
     if st == "err" and mr == 3:
         tags.append("query:zero-probability-conditioning(skipped)")
         return None
-    kind, ir = impl_query(ci, names, sn, Y, dov, adj, algo)
+    kind, ir = impl_query(ci, names, sn, Y, dov, adj, algo, probe)
+    if kind in ("purity", "independence"):
+        return bad("mutated-argument:query" if kind == "purity" else "result-independence:query", dict(d, detail=ir))
+    if kind == "attr":
+        pa_ = {u for (u, w) in map(tuple, case["edges"]) if w in [v for v, _ in dov]}
+        if case.get("backend") == "torch" and st == "ok" and dov and ((adj is None and pa_) or adj) and "variables" in str(ir):
+            # torch backend: p_z.values[...] is a 0-d tensor, `factor * tensor` is not a scalar product
+            fnd.add("impl-raises:query-torch-backend-nonempty-adjustment-set", dict(d, error=ir), "torch-adjustment-scalar-product")
+            tags.append("query:torch-nonempty-adjustment-raises")
+            return None
+        return bad("impl-raises:query", dict(d, error=ir))
     if kind == "value" and algo == "bp" and not connected(case) and not (st == "err"):
         tags.append("query:bp-refuses-disconnected-model")
         return None
@@ -573,8 +799,8 @@ def check_query(case, drv, ci, names, sn, Y, dov, adj, algo, fnd, tags, stats):
     tups = idx_tuples([case["cards"][v] for v in Y])
     model = {t: common.frac(q) for t, q in zip(tups, mr)}
     spec = {t: common.frac(q) for t, q in zip(tups, drv.call("c13_trunc", MB + [list(Y), [list(p) for p in dov]]))}
-    same_model = all(common.approx(ir[t], model[t]) for t in tups)
-    same_spec = all(common.approx(ir[t], spec[t]) for t in tups)
+    same_model = all(relclose(ir[t], model[t]) for t in tups)
+    same_spec = all(relclose(ir[t], spec[t]) for t in tups)
     d2 = dict(d, impl=[ir[t] for t in tups], model=[float(model[t]) for t in tups], truncated=[float(spec[t]) for t in tups])
     if not same_model:
         return bad("impl!=model:query", d2)
@@ -603,7 +829,13 @@ def run_bn(case, drv):
     rng = random.Random(case["qseed"])
     fnd = Findings()
     tags = ["bn n=%d" % n, "latents=%d" % len(lat), "cards=%s" % "".join(map(str, sorted(case["cards"]))),
-            "names=" + case.get("style", "str")]
+            "names=" + case.get("style", "str"), "backend=" + case.get("backend", "numpy")]
+    if case.get("mag"):
+        tags.append("magnitudes: entries down to 2^-50")
+    if 1 in case["cards"]:
+        tags.append("cardinality-1 variable")
+    if not case["edges"]:
+        tags.append("edgeless network")
     stats = {"queries": 0, "adjusted": 0}
     # ---- do(): structure and CPDs
     xsets = [s for s in subsets(range(n)) if s] if n <= 4 else [rng.sample(range(n), rng.randint(1, n)) for _ in range(8)]
@@ -614,13 +846,48 @@ def run_bn(case, drv):
         if b:
             return b
     tags.append("do-sets=%d" % len(xsets))
-    try:
-        m.do([names[0], "__nope__"])
-        return bad("impl!=model:do-accepts-unknown-node", {})
-    except ValueError:
-        pass
+    # argument forms of do(): a single node, tuple, set, the empty list; the caller's list is not changed
+    v0 = rng.randrange(n)
+    snap_m = snapshot(m, names, sn, idx)
+    for form in ("single", "tuple", "set", "empty", "dup"):
+        arg = {"single": names[v0], "tuple": (names[v0],), "set": {names[v0]}, "empty": [], "dup": [names[v0], names[v0]]}[form]
+        if form == "single" and not isinstance(arg, (str, int)):
+            continue                                      # a bare tuple name is read as a list of nodes (documented: str/int)
+        keep = list(arg) if isinstance(arg, list) else None
+        d = m.do(arg)
+        st_ = state_do(drv, model_bn(case), [] if form == "empty" else [v0])
+        dd = cmp_state(d, st_, case, names, sn, idx)
+        if dd:
+            return bad("impl!=model:do-argument-form", dict(dd, form=form, node=v0))
+        if keep is not None and list(arg) != keep:
+            return bad("mutated-argument:do-nodes-list", {"form": form})
+        if d is m:
+            return bad("result-independence:do-returns-self", {"form": form})
+    # rejected calls: a LATER unknown node, out of place and in place; the network stays as it was
+    for inplace in (False, True):
+        try:
+            m.do([names[v0], "__nope__"], inplace=inplace)
+            return bad("impl!=model:do-accepts-unknown-node", {"inplace": inplace})
+        except ValueError:
+            pass
+        dd = snapshot_diff(snap_m, snapshot(m, names, sn, idx))
+        if dd:
+            return bad("rejected-call-changed-state:do", dict(dd, inplace=inplace))
     # ---- queries
     ci = CausalInference(m)
+    probe = [1]
+    if n >= 2:
+        # no intervention (do=None / {}): plain inference, the model's dov = []
+        yv = rng.randrange(n)
+        for algo in ("ve", "bp"):
+            b = check_query(case, drv, ci, names, sn, [yv], [], None, algo, fnd, tags, stats)
+            if b:
+                return b
+        try:
+            ci.query([names[yv], "__nope__"], do={names[(yv + 1) % n]: sn[(yv + 1) % n][0]}, show_progress=False)
+            return bad("impl!=model:query-accepts-unknown-variable", {})
+        except ValueError:
+            pass
     pa = lambda v: [u for (u, w) in map(tuple, case["edges"]) if w == v]
     dosets = [[x] for x in range(n)] + [list(p) for p in itertools.combinations(range(n), 2)]
     if n >= 4:
@@ -650,9 +917,12 @@ def run_bn(case, drv):
             ysets.append([rng.choice(refused)] + ([rng.choice(adm)] if adm and rng.random() < 0.5 else []))
         for Y in ysets:
             for algo in ("ve", "bp"):
-                b = check_query(case, drv, ci, names, sn, Y, dov, None, algo, fnd, tags, stats)
+                pr = probe.pop() if (probe and len(X) == 1 and pa(X[0])) else 0
+                b = check_query(case, drv, ci, names, sn, Y, dov, None, algo, fnd, tags, stats, probe=pr)
                 if b:
                     return b
+                if pr:
+                    tags.append("query:purity+result-independence probe")
         # every enumerated back-door set (single X, single observed Y)
         if len(X) == 1 and X[0] not in lat:
             x = X[0]
@@ -664,7 +934,7 @@ def run_bn(case, drv):
                     tags.append("backdoor-sets:none")
                     continue
                 sets_ = [sorted(s) for s in mb[0][0]] or [[]]
-                if case.get("style", "str") == "str":
+                if case.get("style", "str") in ("str", "substr"):
                     try:
                         own = ci.get_all_backdoor_adjustment_sets(names[x], names[y])
                     except ValueError:
@@ -706,7 +976,27 @@ def run_sim(case, drv):
         point = [t for t, q in zip(tups, spec) if q == 1]
         if len(point) != 1 or sum(spec) != 1:
             return bad("model-inconsistent:deterministic-truncation-not-a-point-mass", {"X": X})
-        df = m.simulate(n_samples=4, do={names[v]: sn[v][i] for v, i in dov}, show_progress=False, seed=rng.randint(0, 10**6))
+        dod = {names[v]: sn[v][i] for v, i in dov}
+        keep = dict(dod)
+        variant = rng.choice(["do", "do+latents", "virtual"])
+        if variant == "virtual" and any(common.frac(c[2][i]) == 0 for c in mc for (v, i) in dov if c[0] == v):
+            variant = "do"        # a soft intervention is sampled by rejection: the value needs positive natural mass
+        before = snapshot(m, names, sn, {nm: i for i, nm in enumerate(names)})
+        if variant == "virtual":
+            # a degenerate virtual intervention (all mass on the do-value) is the same hard intervention
+            from pgmpy.factors.discrete import TabularCPD
+            vi = [TabularCPD(names[v], case["cards"][v], [[1.0 if k == i else 0.0] for k in range(case["cards"][v])],
+                             state_names={names[v]: list(sn[v])}) for v, i in dov]
+            df = m.simulate(n_samples=4, virtual_intervention=vi, show_progress=False, seed=rng.randint(0, 10**6))
+        else:
+            df = m.simulate(n_samples=4, do=dod, include_latents=(variant == "do+latents"), show_progress=False,
+                            seed=rng.randint(0, 10**6))
+        if dod != keep:
+            return bad("mutated-argument:simulate-do-dict", {"do": dov})
+        dd = snapshot_diff(before, snapshot(m, names, sn, {nm: i for i, nm in enumerate(names)}))
+        if dd:
+            return bad("mutated-original:simulate", dict(dd, variant=variant))
+        tags.append("sim variant=" + variant)
         for _, row in df.iterrows():
             for v, i in dov:
                 if row[names[v]] != sn[v][i]:
@@ -930,7 +1220,250 @@ def run_sess(case, drv):
                                                              case["cpds"], case["qseed"]]), tags=tags)
 
 
+# ------------------------------------------------------------------ sessions on one model object / one engine
+def acyclic_with(edges, n, e):
+    es = [tuple(x) for x in edges] + [tuple(e)]
+    ch = {}
+    for u, v in es:
+        ch.setdefault(u, []).append(v)
+    seen, stack = set(), [e[1]]
+    while stack:
+        u = stack.pop()
+        if u == e[0]:
+            return False
+        for w in ch.get(u, []):
+            if w not in seen:
+                seen.add(w)
+                stack.append(w)
+    return True
+
+
+def run_gsess(case, drv):
+    """ONE network object: graph tests / enumerations, then an edit through a mutator (remove_edge, add_edge,
+    remove_edges_from, add_edges_from, remove_node, add_node(+latent), clear and rebuild), then the same calls again;
+    the oracle is the Coq model on the CURRENT graph.  The CausalInference object is kept across edge edits and
+    rebuilt after node-set edits (it snapshots the observed variables when constructed)."""
+    from pgmpy.inference import CausalInference
+    m, names = build_graph(case)
+    rng = random.Random(case["qseed"])
+    cur = {"n": case["n"], "edges": [list(e) for e in case["edges"]], "lat": list(case["lat"]),
+           "names": list(names), "nameseed": case["nameseed"]}
+    ci = CausalInference(m)
+    fnd = Findings()
+    tags = ["gsess n=%d" % case["n"]]
+    spare = [nm for nm in NAMEPOOL if nm not in names]
+
+    def checks(step):
+        n = cur["n"]
+        pairs = [(x, y) for x in range(n) for y in range(n) if x != y]
+        rng.shuffle(pairs)
+        b, _ = graph_checks(cur, drv, m, ci, cur["names"], pairs[:4], fnd, tags, multi=False)
+        if b:
+            b["kind"] = "session:" + b["kind"]
+            b["detail"] = dict(b["detail"], after_step=step, graph=[cur["n"], cur["edges"], cur["lat"]])
+        return b
+
+    b = checks("start")
+    if b:
+        return b
+    ops = ["remove_edge", "add_edge", "remove_edges_from", "add_edges_from", "remove_node", "add_node", "clear"]
+    for step in range(rng.randint(3, 5)):
+        op = rng.choice(ops)
+        nm_ = cur["names"]
+        n = cur["n"]
+        eset = [tuple(e) for e in cur["edges"]]
+        nonedges = [(u, v) for u in range(n) for v in range(n) if u != v and (u, v) not in eset and (v, u) not in eset
+                    and acyclic_with(eset, n, (u, v))]
+        if op == "remove_edge" and eset:
+            u, v = rng.choice(eset)
+            m.remove_edge(nm_[u], nm_[v])
+            cur["edges"] = [list(e) for e in eset if e != (u, v)]
+        elif op == "add_edge" and nonedges:
+            u, v = rng.choice(nonedges)
+            m.add_edge(nm_[u], nm_[v])
+            cur["edges"] = [list(e) for e in eset] + [[u, v]]
+        elif op == "remove_edges_from" and len(eset) >= 2:
+            rm = rng.sample(eset, 2)
+            m.remove_edges_from([(nm_[u], nm_[v]) for u, v in rm])
+            cur["edges"] = [list(e) for e in eset if e not in rm]
+        elif op == "add_edges_from" and nonedges:
+            u, v = rng.choice(nonedges)
+            m.add_edges_from([(nm_[u], nm_[v])])
+            cur["edges"] = [list(e) for e in eset] + [[u, v]]
+        elif op == "remove_node" and n >= 3:
+            r = rng.randrange(n)
+            m.remove_node(nm_[r])
+            ren = {v: (v if v < r else v - 1) for v in range(n) if v != r}
+            cur["edges"] = [[ren[u], ren[v]] for u, v in eset if r not in (u, v)]
+            cur["lat"] = sorted(ren[v] for v in cur["lat"] if v != r)
+            cur["names"] = [x for k, x in enumerate(nm_) if k != r]
+            cur["n"] = n - 1
+            ci = CausalInference(m)
+        elif op == "add_node" and n <= 4 and spare:
+            new = spare.pop()
+            latent = rng.random() < 0.3
+            m.add_node(new, latent=latent)
+            par = rng.randrange(n)
+            if rng.random() < 0.5:
+                m.add_edge(nm_[par], new)
+                cur["edges"] = [list(e) for e in eset] + [[par, n]]
+            else:
+                m.add_edge(new, nm_[par])
+                cur["edges"] = [list(e) for e in eset] + [[n, par]]
+            cur["names"] = nm_ + [new]
+            if latent:
+                cur["lat"] = sorted(cur["lat"] + [n])
+            cur["n"] = n + 1
+            ci = CausalInference(m)
+        elif op == "clear":
+            m.clear()
+            m.latents = set()
+            keep = eset[:max(1, len(eset) // 2)] if eset else []
+            for v in range(n):
+                m.add_node(nm_[v], latent=(v in cur["lat"]))
+            m.add_edges_from([(nm_[u], nm_[v]) for u, v in keep])
+            cur["edges"] = [list(e) for e in keep]
+            ci = CausalInference(m)
+        else:
+            continue
+        tags.append("gsess:" + op)
+        if sorted(ci.model.latents, key=repr) != sorted((cur["names"][v] for v in cur["lat"]), key=repr):
+            return bad("session:latents-out-of-date", {"after_step": op, "impl": repr(ci.model.latents), "model": cur["lat"]})
+        b = checks("%d: %s" % (step, op))
+        if b:
+            return b
+    key = common.canon_key(["gsess", case["n"], case["edges"], case["lat"], case["qseed"]])
+    kb = fnd.result(key=key, tags=tags)
+    if kb:
+        return kb
+    return ok(nontrivial=True, key=key, tags=tags)
+
+
+def rand_table(rng, card, pcards, mag=False):
+    ncol = 1
+    for c in pcards:
+        ncol *= c
+    cols = [common.rand_column(rng, card, zeros=False) for _ in range(ncol)]
+    return [[[c[i].numerator, c[i].denominator] for c in cols] for i in range(card)]
+
+
+def run_qsess(case, drv):
+    """ONE network + ONE CausalInference object: queries, then an edit of the network (add_cpds replacement,
+    remove_edge + replacement CPD, add_edge + replacement CPD, do(inplace=True)), then queries again through the
+    SAME engine; the oracle is the Coq model on the CURRENT network."""
+    from pgmpy.inference import CausalInference
+    from pgmpy.factors.discrete import TabularCPD
+    m, names, sn = build_bn(case)
+    n = case["n"]
+    rng = random.Random(case["qseed"])
+    cur = dict(case)
+    cur["edges"] = [list(e) for e in case["edges"]]
+    cur["cpds"] = [dict(c) for c in case["cpds"]]
+    ci = CausalInference(m)
+    fnd = Findings()
+    tags = ["qsess n=%d" % n, "backend=" + case.get("backend", "numpy")]
+    stats = {"queries": 0, "adjusted": 0}
+
+    def mk_cpd(c):
+        v, ps = c["v"], c["ps"]
+        vals = [[float(Fraction(a, b)) for a, b in row] for row in c["table"]]
+        st = {names[v]: list(sn[v])}
+        for p_ in ps:
+            st[names[p_]] = list(sn[p_])
+        return TabularCPD(names[v], cur["cards"][v], vals, evidence=[names[p_] for p_ in ps] or None,
+                          evidence_card=[cur["cards"][p_] for p_ in ps] or None, state_names=st)
+
+    def queries(step):
+        eset = [tuple(e) for e in cur["edges"]]
+        for _ in range(3):
+            x = rng.randrange(n)
+            blocked = {x} | {u for (u, w) in eset if w == x}
+            adm = [v for v in range(n) if v not in blocked]
+            if not adm:
+                continue
+            b = check_query(cur, drv, ci, names, sn, [rng.choice(adm)], [(x, rng.randrange(cur["cards"][x]))], None,
+                            rng.choice(["ve", "bp"]), fnd, tags, stats)
+            if b:
+                b["kind"] = "session:" + b["kind"]
+                b["detail"] = dict(b["detail"], after_step=step)
+                return b
+        return None
+
+    b = queries("start")
+    if b:
+        return b
+    for step in range(rng.randint(3, 4)):
+        eset = [tuple(e) for e in cur["edges"]]
+        op = rng.choice(["replace_cpd", "remove_edge", "add_edge", "do_inplace"])
+        if op == "replace_cpd":
+            k = rng.randrange(n)
+            c = cur["cpds"][k]
+            c["table"] = rand_table(rng, cur["cards"][c["v"]], [cur["cards"][p_] for p_ in c["ps"]])
+            m.add_cpds(mk_cpd(c))
+        elif op == "remove_edge" and eset:
+            u, v = rng.choice(eset)
+            m.remove_edge(names[u], names[v])
+            cur["edges"] = [list(e) for e in eset if e != (u, v)]
+            c = [c for c in cur["cpds"] if c["v"] == v][0]
+            c["ps"] = [p_ for p_ in c["ps"] if p_ != u]
+            c["table"] = rand_table(rng, cur["cards"][v], [cur["cards"][p_] for p_ in c["ps"]])
+            m.add_cpds(mk_cpd(c))
+        elif op == "add_edge":
+            non = [(u, v) for u in range(n) for v in range(n) if u != v and (u, v) not in eset and (v, u) not in eset
+                   and acyclic_with(eset, n, (u, v))]
+            if not non:
+                continue
+            u, v = rng.choice(non)
+            m.add_edge(names[u], names[v])
+            cur["edges"] = [list(e) for e in eset] + [[u, v]]
+            c = [c for c in cur["cpds"] if c["v"] == v][0]
+            c["ps"] = c["ps"] + [u]
+            c["table"] = rand_table(rng, cur["cards"][v], [cur["cards"][p_] for p_ in c["ps"]])
+            m.add_cpds(mk_cpd(c))
+        elif op == "do_inplace":
+            X = [rng.randrange(n)]
+            st_ = state_do(drv, model_bn(cur), X)
+            m.do([names[X[0]]], inplace=True)
+            cur["edges"] = [list(e) for e in st_[1]]
+            newc = []
+            for c in st_[4]:
+                card = cur["cards"][c[0]]
+                ncol = len(c[2]) // card
+                newc.append({"v": c[0], "ps": list(c[1]),
+                             "table": [[[c[2][i * ncol + j].numerator, c[2][i * ncol + j].denominator] for j in range(ncol)]
+                                       for i in range(card)]})
+            cur["cpds"] = newc
+        else:
+            continue
+        tags.append("qsess:" + op)
+        if ci.model is not m:
+            return bad("session:engine-lost-its-model", {"after_step": op})
+        try:
+            m.check_model()
+        except Exception as e:
+            return bad("session:edited-network-fails-check_model", {"after_step": op, "error": repr(e)[:200]})
+        b = queries("%d: %s" % (step, op))
+        if b:
+            return b
+    key = common.canon_key(["qsess", n, case["edges"], case["cards"], case["cpds"], case["qseed"]])
+    kb = fnd.result(key=key, tags=tags)
+    if kb:
+        return kb
+    return ok(nontrivial=stats["adjusted"] > 0, key=key, tags=tags)
+
+
 def run_case(case, drv):
+    if case.get("backend") == "torch":
+        from pgmpy import config
+        config.set_backend("torch")
+        try:
+            return run_case_(case, drv)
+        finally:
+            config.set_backend("numpy")
+    return run_case_(case, drv)
+
+
+def run_case_(case, drv):
     k = case["kind"]
     if k == "graph":
         return run_graph(case, drv)
@@ -942,4 +1475,8 @@ def run_case(case, drv):
         return run_sim(case, drv)
     if k == "sess":
         return run_sess(case, drv)
+    if k == "gsess":
+        return run_gsess(case, drv)
+    if k == "qsess":
+        return run_qsess(case, drv)
     return bad("harness:unknown-kind", {"kind": k})
